@@ -144,9 +144,14 @@ def load():
 def apply(root, m):
     p = os.path.join(root, m["file"])
     lines = open(p).read().split("\n")
-    if lines[m["line"] - 1] != m["old"]:
-        return False
-    lines[m["line"] - 1] = m["new"]
+    at = m["line"] - 1
+    if at >= len(lines) or lines[at] != m["old"]:
+        # the file moved a little since the plan was made (a repair commit): take the nearest identical line within 12 lines
+        cand = [i for i in range(max(0, at - 12), min(len(lines), at + 13)) if lines[i] == m["old"]]
+        if not cand:
+            return False
+        at = min(cand, key=lambda i: abs(i - (m["line"] - 1)))
+    lines[at] = m["new"]
     open(p, "w").write("\n".join(lines))
     return True
 
